@@ -413,11 +413,12 @@ def tight_points(src, hw):
             a = bez_eval(d2, t) if len(d2) > 1 else d2[0]
             sp = math.hypot(*v)
             cr = abs(v[0] * a[1] - v[1] * a[0])
-            if sp < 1e-3 * vmax:
-                return 0.0
+            if sp < 1e-7 * vmax:
+                return float('inf')      # a stationary point by itself says nothing (retracted handle): a cusp shows in the radius next to it
             return sp ** 3 / cr if cr > 0 else float('inf')
         N = 512
         rs = [rad(i / N) for i in range(N + 1)]
+        tight = [False] * (N + 1)
         for i in range(N + 1):
             r = rs[i]
             if r >= hw and rs[max(0, i - 1)] >= r <= rs[min(N, i + 1)]:
@@ -426,11 +427,36 @@ def tight_points(src, hw):
                 for _ in range(3):
                     sub = [lo + (hi - lo) * k / 64 for k in range(65)]
                     vals = [rad(t) for t in sub]
-                    j = vals.index(min(vals))
-                    lo, hi = sub[max(0, j - 1)], sub[min(64, j + 1)]
-                    r = vals[j]
-            if r < hw:
-                pts.append(bez_eval(seg, i / N))
+                    jj = vals.index(min(vals))
+                    lo, hi = sub[max(0, jj - 1)], sub[min(64, jj + 1)]
+                    r = vals[jj]
+            tight[i] = r < hw
+
+        def direction(i):
+            v = bez_eval(d1, min(1.0, max(0.0, i / N))) if len(d1) > 1 else d1[0]
+            return math.atan2(v[1], v[0]) if v != (0.0, 0.0) else None
+        i = 0
+        while i <= N:
+            if not tight[i]:
+                i += 1
+                continue
+            k = i
+            while k + 1 <= N and tight[k + 1]:
+                k += 1
+            # total turning of the tangent across the tight stretch (one sample of margin on either side)
+            turn, prev = 0.0, None
+            for m in range(max(0, i - 1), min(N, k + 1) + 1):
+                a = direction(m)
+                if a is None:
+                    continue
+                if prev is not None:
+                    dlt = abs(a - prev)
+                    turn += min(dlt, 2 * math.pi - dlt)
+                prev = a
+            if turn >= 0.5:
+                # a stretch that is tight but hardly turns (the curvature blows up next to a retracted handle, over a negligible length) is harmless
+                pts.extend(bez_eval(seg, m / N) for m in range(i, k + 1))
+            i = k + 1
     return pts
 
 
